@@ -118,7 +118,10 @@ def gen(ctx):
                     v = b''
                     while len(v) + 2 + asz <= n:
                         k = min((n - len(v) - 2) // asz, rng.choice([1, 2, 3, 255]))
-                        v += bytes([rng.choice([1, 2, 2, 3, 4]), k]) + bytes(rng.below(256) for _ in range(k * asz))
+                        # ASNs at the far ends of their ranges and the reserved ones (0, AS_TRANS 23456, 65535, 65536, 2^32-1) next to random ones
+                        v += bytes([rng.choice([1, 2, 2, 3, 4]), k]) + b''.join(
+                            (rng.choice([0, 23456, 65535, 65536, 0xffffffff]) & ((1 << (8 * asz)) - 1)).to_bytes(asz, 'big')
+                            if rng.chance(1, 4) else bytes(rng.below(256) for _ in range(asz)) for _ in range(k))
                         if rng.chance(1, 2):
                             break
                     v = v + bytes(rng.below(5) for _ in range(n - len(v)))
